@@ -486,7 +486,14 @@ def _exec_mvn(case, mon):
         seen = []
         held = None
         for j, ids in enumerate(h["chunks"]):
-            mon.lib("accumulate", m.accumulate, chunk_t(ids))
+            ct = chunk_t(ids)
+            if hi and (j + hi) % 2 == 0:
+                # the same frames handed over with one more axis of size one (a single utterance next to a batch):
+                # in front when the feature axis is counted from the end, at the back when it is counted from the
+                # front - the chunks of one history then differ in rank
+                ct = ct.unsqueeze(0) if dim < 0 else ct.unsqueeze(-1)
+                mon.cls("mvn_chunk_of_another_rank")
+            mon.lib("accumulate", m.accumulate, ct)
             seen.append(chunk_np(ids))
             if j + 1 < len(h["chunks"]):
                 # the accumulating object travels (deepcopy / pickle) between two chunks
